@@ -9,6 +9,7 @@
     reorient_points, rmsd_points and Dimer(..., transform_ab="calculate") -> Trace_Kabsch.
 """
 import math
+import random
 
 from harness.common import main, pool_map
 from harness import tlc
@@ -271,6 +272,182 @@ def drive(recipe):
     return t
 
 
+# ---------------------------------------------------------------- Molecule objects under rigid motions (extension: MoleculeObject.tla)
+MO_CFG = """SPECIFICATION Spec
+CHECK_DEADLOCK FALSE
+CONSTANTS
+  Depth = %d
+  MaxObjs = 2
+  Emit = %s
+INVARIANT RotsProper
+INVARIANT ShapeKept
+INVARIANT FormulaKept
+INVARIANT MaskedFormula
+INVARIANT QuarterTurns
+INVARIANT CentroidCovariant
+PROPERTY CopiesLeaveReceiver
+%s
+"""
+MO_BASE = [[8, [0, 0, 1]], [1, [0, 6, -4]], [1, [0, -6, -4]], [6, [9, 2, 3]]]
+MO_ROTS = [[[0, -1, 0], [1, 0, 0], [0, 0, 1]], [[1, 0, 0], [0, 0, -1], [0, 1, 0]], [[0, 0, 1], [1, 0, 0], [0, 1, 0]]]
+MO_VECS = [[8, 0, 0], [-3, 5, 16]]
+MO_ORGS = [[0, 0, 0], [4, -8, 1]]
+MO_MASKS = [[True, True, False, True], [False, True, True, False]]
+GRID = 8.0
+
+
+def _mo_obs(m):
+    import numpy as np
+    pos = np.asarray(m.positions, dtype=float) * GRID
+    off = bool(np.any(np.abs(pos - np.rint(pos)) > 1e-9))
+    atoms = [{"z": int(z), "p": [int(x) for x in np.rint(row)]} for z, row in zip(m.atomic_numbers, pos)]
+    return atoms, off
+
+
+def _mo_derived(m):
+    import numpy as np
+    n = len(m)
+    cen = np.asarray(m.centroid, dtype=float) * n * GRID
+    lo, hi = m.bbox_corners
+    lo, hi = np.asarray(lo, dtype=float) * GRID, np.asarray(hi, dtype=float) * GRID
+    dm = np.asarray(m.distance_matrix, dtype=float)
+    d2 = dm * dm * GRID * GRID
+    off = bool(np.any(np.abs(cen - np.rint(cen)) > 1e-6) or np.any(np.abs(lo - np.rint(lo)) > 1e-9) or np.any(np.abs(hi - np.rint(hi)) > 1e-9)
+               or np.any(np.abs(d2 - np.rint(d2)) > 1e-6))
+    tri = float(np.trace(np.asarray(m.inertia_tensor(), dtype=float))) * 1024.0
+    return {"cen": [int(x) for x in np.rint(cen)], "bmin": [int(x) for x in np.rint(lo)], "bmax": [int(x) for x in np.rint(hi)],
+            "d2": [[int(x) for x in row] for row in np.rint(d2)], "formula": str(m.molecular_formula),
+            "tri": int(round(tri)) if math.isfinite(tri) and abs(tri) < 2e9 else -1}, off
+
+
+def drive_molobj(rec):
+    """rec: {base: [[z, p]], events: [{op, obj, R?, o?, v?, keep?}]} -> trace for Trace_MoleculeObject."""
+    import copy
+    import numpy as np
+    from chmpy.core import Molecule
+    t = {"base": [{"z": z, "p": p} for z, p in rec["base"]], "exc": "", "tri0": 0, "events": [],
+         "meta": {"recipe": rec, "source": rec.get("source", "random-history"), "nontrivial": True,
+                  "impl_call": "Molecule.from_arrays(...) then " + ",".join(e["op"] for e in rec["events"])}}
+    try:
+        objs = {1: Molecule.from_arrays(np.array([z for z, _ in rec["base"]]), np.array([p for _, p in rec["base"]], dtype=float) / GRID)}
+        t["tri0"] = _mo_derived(objs[1])[0]["tri"]
+    except Exception as e:
+        t["exc"] = type(e).__name__
+        return t
+    full = {1: True}
+    for ev in rec["events"]:
+        op, i = ev["op"], ev["obj"]
+        e = {"op": op, "obj": i, "R": ev.get("R", [[1, 0, 0], [0, 1, 0], [0, 0, 1]]), "o": ev.get("o", [0, 0, 0]), "v": ev.get("v", [0, 0, 0]),
+             "keep": ev.get("keep", []), "exc": "", "off": False, "tg": [], "recv": [], "others": [], "cen": [0, 0, 0], "bmin": [0, 0, 0],
+             "bmax": [0, 0, 0], "d2": [], "formula": "", "tri": 0, "full": True}
+        t["events"].append(e)
+        if i not in objs:
+            break
+        m = objs[i]
+        try:
+            R = np.array(ev.get("R", np.eye(3)), dtype=float)
+            o = tuple(float(x) / GRID for x in ev.get("o", [0, 0, 0]))
+            v = np.array(ev.get("v", [0, 0, 0]), dtype=float) / GRID
+            tg = i
+            if op == "t":
+                m.translate(v)
+            elif op == "r":
+                m.rotate(R, origin=o)
+            elif op == "x":
+                m.transform(rotation=R, translation=v)
+            else:
+                tg = len(objs) + 1
+                if op == "T":
+                    new = m.translated(v)
+                elif op == "R":
+                    new = m.rotated(R, origin=o)
+                elif op == "X":
+                    new = m.transformed(rotation=R, translation=v)
+                elif op == "C":
+                    new = copy.deepcopy(m)
+                else:
+                    new = m.mask(np.array(ev["keep"], dtype=bool))
+                objs[tg] = new
+                full[tg] = full[i] and op != "M"
+            e["full"] = bool(full[tg])
+            e["tg"], off1 = _mo_obs(objs[tg])
+            e["recv"], off2 = _mo_obs(objs[i])
+            off3 = False
+            for k, mk in objs.items():
+                if k not in (tg, i):
+                    a, o3 = _mo_obs(mk)
+                    off3 |= o3
+                    e["others"].append({"id": k, "atoms": a})
+            d, off4 = _mo_derived(objs[tg])
+            e.update(d)
+            e["off"] = bool(off1 or off2 or off3 or off4)
+        except Exception as ex:
+            e["exc"] = type(ex).__name__
+            break
+    return t
+
+
+def _signed_perm(rng):
+    import itertools
+    while True:
+        perm = rng.sample(range(3), 3)
+        R = [[0, 0, 0] for _ in range(3)]
+        for r, c in enumerate(perm):
+            R[r][c] = rng.choice([-1, 1])
+        det = (R[0][0] * (R[1][1] * R[2][2] - R[1][2] * R[2][1]) - R[0][1] * (R[1][0] * R[2][2] - R[1][2] * R[2][0])
+               + R[0][2] * (R[1][0] * R[2][1] - R[1][1] * R[2][0]))
+        if det == 1:
+            return R
+
+
+def molobj_recipes(rng, words, count):
+    out = []
+    for w in words:                         # histories enumerated by TLC from MC_MoleculeObject (its own constants)
+        evs = []
+        for tok in w.split(","):
+            i, op, *args = tok.split(":")
+            ev = {"op": op, "obj": int(i)}
+            a = [int(x) for x in args]
+            if op in ("t", "T"):
+                ev["v"] = MO_VECS[a[0] - 1]
+            elif op in ("r", "R"):
+                ev["R"], ev["o"] = MO_ROTS[a[0] - 1], MO_ORGS[a[1] - 1]
+            elif op in ("x", "X"):
+                ev["R"], ev["v"] = MO_ROTS[a[0] - 1], MO_VECS[a[1] - 1]
+            elif op == "M":
+                ev["keep"] = MO_MASKS[a[0] - 1]
+            evs.append(ev)
+        out.append({"base": MO_BASE, "events": evs, "source": "tlc-word"})
+    for _ in range(count):                  # longer random histories on random molecules
+        n = rng.randint(1, 9)
+        pts = set()
+        while len(pts) < n:
+            pts.add(tuple(rng.randint(-40, 40) for _ in range(3)))
+        base = [[rng.choice([1, 1, 6, 6, 7, 8, 9, 16, 17]), list(p)] for p in pts]
+        nobj, evs, sizes = 1, [], {1: n}
+        for _ in range(rng.randint(1, 8)):
+            i = rng.randint(1, nobj)
+            op = rng.choice("trxTRXCM" if nobj < 4 else "trx")
+            ev = {"op": op, "obj": i}
+            if op in "tTxX":
+                ev["v"] = [rng.randint(-16, 16) for _ in range(3)]
+            if op in "rRxX":
+                ev["R"] = _signed_perm(rng)
+            if op in "rR":
+                ev["o"] = [0, 0, 0] if rng.random() < 0.3 else [rng.randint(-16, 16) for _ in range(3)]
+            if op == "M":
+                keep = [rng.random() < 0.6 for _ in range(sizes[i])]
+                if not any(keep):
+                    keep[rng.randrange(len(keep))] = True
+                ev["keep"] = keep
+            if op in "TRXCM":
+                nobj += 1
+                sizes[nobj] = sum(ev["keep"]) if op == "M" else sizes[i]
+            evs.append(ev)
+        out.append({"base": base, "events": evs})
+    return out
+
+
 def emitted_covariances(res):
     """Covariance matrices printed by MC_Kabsch (action Align with Emit): 'H|<<<<..>>, <<..>>, <<..>>>>'."""
     import re
@@ -336,6 +513,16 @@ def run(ctx):
     recipes = make_recipes(ctx, emitted)
     traces = pool_map(drive, recipes)
     ctx.validate("trace/Trace_Kabsch.tla", traces, consts=CONSTS, batch=4000, timeout=1200)
+    # beyond the listed property: Molecule objects under rigid motions (MoleculeObject.tla) - the model, its histories replayed on
+    # real objects, and longer random histories
+    ctx.model_check("mc/MC_MoleculeObject.tla", MO_CFG % (ctx.pick(3, 4), "FALSE", ""), name="MC_MoleculeObject", extension=True, timeout=900)
+    wres = tlc.run("mc/MC_MoleculeObject.tla", MO_CFG % (2, "TRUE", "CONSTRAINT EmitWord"), timeout=600, workers=4)
+    ctx._account(wres, "MC_MoleculeObject(emit depth 2)")
+    mo_words = sorted({x[2:] for x in wres.printed if x.startswith("W|")})
+    if not wres.ok or not mo_words:
+        raise tlc.TLCFailure("MC_MoleculeObject emitted no histories: %s %s" % (wres.violated, wres.errors))
+    mo_traces = pool_map(drive_molobj, molobj_recipes(random.Random(ctx.seed * 97 + 18), mo_words, ctx.pick(300, 5000)))
+    ctx.validate("trace/Trace_MoleculeObject.tla", mo_traces, name="Trace_MoleculeObject (extension)", extension=True, timeout=1200)
     ctx.rule = ("integer point sets A (3..50 points) and B = A Q for exact rational rotations Q from integer "
                 "quaternions |q|^2 <= 30, optionally mirrored / with integer noise / unrelated; generic, planar "
                 "and collinear; non-trivial = anything but a clean generic rotated copy (reflection, noise, "
